@@ -292,7 +292,7 @@ func (g *gen) busy(t int, n int, big func() string) []call {
 }
 
 func runDerive(g *gen, count, toCoq int, seed uint64, st *vx.Stats, addCase func(string, any)) {
-	hangs, bad := 0, 0
+	hangs, bad, sent := 0, 0, 0
 	var sh deriveShape
 	for n := 0; n < count && hangs < 2 && bad < 3; n++ {
 		var big func() string
@@ -361,13 +361,19 @@ func runDerive(g *gen, count, toCoq int, seed uint64, st *vx.Stats, addCase func
 			st.Count("derive:with-close")
 		}
 		if len(h) <= 62 {
-			if len(torn) == 0 && !linearizable(h) {
+			lin := len(torn) == 0 && linearizable(h)
+			if len(torn) == 0 && !lin {
 				st.Fail(map[string]any{"kind": "not-linearizable", "mode": "derive", "seed": seed, "index": n, "scripts": scripts, "history": h,
 					"what": "operations through views derived at run time are recorded on the full key realm ++ key, the realm being the one the " +
 						"derivation chain prescribes"})
 				bad++
 			}
-			if n < toCoq && len(torn) == 0 {
+			// only histories the Go checker accepted go to Coq: lin_check has no memo table, refuting a history of this length can take
+			// it minutes, and the Go verdict is a reported failure with its concrete input already
+			// ... and of those only the ones of at most 36 records (CONVENTIONS: <= 40 ops per history for Coq): the first toCoq such histories
+			if sent < toCoq && lin && len(h) <= 36 {
+				sent++
+				st.Count("derive:to-coq")
 				addCase("CLin "+vx.ListOf(h, rec.coq), map[string]any{"mode": "derive", "index": n, "history": h})
 			}
 		} else {
